@@ -121,6 +121,9 @@ type World struct {
 	dbAddr         string
 	scnID          string
 	quiesceTimeout time.Duration
+	indexHeld      bool // an op is running under withIndexHeld
+	reuseOpts      bool // address family: each peer passes one options value to every create/open
+	peerOpts       map[int]*orbitdb.CreateDBOptions
 	unserved       map[int]bool // peers whose instance stopped taking direct-channel messages
 	sentMark       int
 	barrierSeq     int
@@ -642,6 +645,8 @@ func (w *World) flushLoadEnds(p int, s iface.Store) {
 
 func (w *World) resetScenario(id string) {
 	w.closeStores()
+	w.reuseOpts = false
+	w.peerOpts = nil
 	w.blocks.Reset()
 	w.net.ResetLinks()
 	w.mu.Lock()
